@@ -377,7 +377,7 @@ func (p *c07Prog) program() *gen.Program {
 
 func checkC07(c *Ctx) error {
 	r := c.R
-	r.Rule = "random event sequences of 3-10 events over places {x, y, p.A, p.B, a[0], a[1]} and up to 3 references: shared/mutable borrow, a reference initialised from another reference variable, read/write through the reference, read/write of the place, at top level or inside one block / if / else / else-if arm / trailing else / match arm / match default / while / for; classified by the loan model (MUST_REJECT: conflicting access while the reference is used later in program order or in the same loop; MUST_ACCEPT: no conflict even when loans last to the end of the statement containing their last mention, no array elements involved; MAY otherwise); plus directed cases (a reference from a short function body used inside a nested if / else / while / match arm / block / for that declares no references, the conflicting access after 0-6 other statements of that construct) and fixed cases for returning a reference to a local / to a parameter and pinned probes for derived references. MUST_REJECT accepted and MUST_ACCEPT rejected are violations; every accepted program is run natively and compared with the interpreter. non-trivial = a distinct sequence whose verdict matched the model (and whose output matched when accepted)"
+	r.Rule = "random event sequences of 3-10 events over places {x, y, p.A, p.B, a[0], a[1]} and up to 3 references: shared/mutable borrow, a reference initialised from another reference variable, read/write through the reference, read/write of the place, at top level or inside one block / if / else / else-if arm / trailing else / match arm / match default / while / for; classified by the loan model (MUST_REJECT: conflicting access while the reference is used later in program order or in the same loop; MUST_ACCEPT: no conflict even when loans last to the end of the statement containing their last mention, no array elements involved; MAY otherwise); plus same-statement cases (several borrows among the arguments of one call, also through a nested call whose by-value result carries the reference) and directed cases (a reference from a short function body used inside a nested if / else / while / match arm / block / for that declares no references, the conflicting access after 0-6 other statements of that construct) and fixed cases for returning a reference to a local / to a parameter and pinned probes for derived references. MUST_REJECT accepted and MUST_ACCEPT rejected are violations; every accepted program is run natively and compared with the interpreter. non-trivial = a distinct sequence whose verdict matched the model (and whose output matched when accepted)"
 	r.Assumptions = []string{"distinct elements of one array are MAY (the implementation treats index borrows conservatively)", "a loan expires after the last mention of its reference variable"}
 	n := c.N(300, 8000)
 	type cse struct {
@@ -452,11 +452,28 @@ func checkC07(c *Ctx) error {
 			}
 		}
 	}
+	// several borrows inside ONE statement: the loans taken for the arguments of a call (also of a
+	// nested call whose by-value result carries the reference) are alive until the statement ends
+	sameStmtPrelude := "import \"std/io\";\n\ntype Pair struct { .A: i32, .B: i32 };\n\ntype Cell struct { .Slot: &'i32, .Step: i32 };\n\nfn both(a: &'i32, b: &'i32) {\n    a = 1;\n    b = 2;\n}\n\nfn shared(a: &i32, b: &i32) {\n    io::Println(a);\n    io::Println(b);\n}\n\nfn mixed(a: &'i32, b: &i32) {\n    a = 1;\n}\n\nfn take(a: &'i32, v: i32) {\n    a = v;\n}\n\nfn wrap(a: &'i32, step: i32) -> Cell {\n    return { .Slot = a, .Step = step } as Cell;\n}\n\nfn apply(c: Cell, q: &'i32) {\n    let s: &'i32 = c.Slot;\n    s = 1;\n    q = q + 5;\n}\n\nfn main() {\n    let x := 10;\n    let y := 20;\n    let p: Pair = { .A = 1, .B = 2 };\n    STMT\n    io::Println(x);\n    io::Println(y);\n    io::Println(p.A);\n    io::Println(p.B);\n}\n"
+	for _, ss := range []struct{ name, stmt, class string }{
+		{"two-mutable-borrows-of-one-variable", "both(&'x, &'x);", "reject"},
+		{"two-shared-borrows-of-one-variable", "shared(&x, &x);", "accept"},
+		{"mutable-and-shared-borrow-of-one-variable", "mixed(&'x, &x);", "reject"},
+		{"mutable-borrows-of-two-variables", "both(&'x, &'y);", "accept"},
+		{"mutable-borrows-of-disjoint-fields", "both(&'p.A, &'p.B);", "accept"},
+		{"two-mutable-borrows-of-one-field", "both(&'p.A, &'p.A);", "reject"},
+		{"mutable-borrow-and-read-of-one-variable", "take(&'x, x);", "reject"},
+		{"reference-carried-by-a-nested-call-result-and-second-borrow", "apply(wrap(&'x, 5), &'x);", "reject"},
+		{"reference-carried-by-a-nested-call-result-and-other-variable", "apply(wrap(&'x, 5), &'y);", "accept"},
+	} {
+		fixed = append(fixed, cse{id: "same-statement:" + ss.name, class: ss.class, why: ss.stmt, src: strings.Replace(sameStmtPrelude, "STMT", ss.stmt, 1)})
+	}
 	// open finding kf-C07-derived-indirect: references derived through a reference variable, the second
 	// argument, or a closure capture
 	fixed = append(fixed,
 		cse{id: "probe:derived-ref-through-a-reference-variable", class: "reject", why: "n = idm(m) still refers to a; a = 5 while n is used later", src: "import \"std/io\";\n\nfn idm(x: &'i32) -> &'i32 {\n    return x;\n}\n\nfn main() {\n    let a := 10;\n    let m := idm(&'a);\n    let n := idm(m);\n    a = 5;\n    n = 2;\n    io::Println(a);\n}\n"},
 		cse{id: "probe:derived-ref-from-second-argument", class: "reject", why: "m = second(&'a, &'b) refers to b; b = 5 while m is used later", src: "import \"std/io\";\n\nfn second(x: &'i32, y: &'i32) -> &'i32 {\n    return y;\n}\n\nfn main() {\n    let a := 10;\n    let b := 20;\n    let m := second(&'a, &'b);\n    b = 5;\n    m = 1;\n    io::Println(b);\n}\n"},
+		cse{id: "probe:reference-carried-by-a-returned-struct", class: "reject", why: "c = wrap(&'x, 5) carries a mutable reference to x; x = 3 while c.Slot is used later", src: "import \"std/io\";\n\ntype Cell struct { .Slot: &'i32, .Step: i32 };\n\nfn wrap(a: &'i32, step: i32) -> Cell {\n    return { .Slot = a, .Step = step } as Cell;\n}\n\nfn main() {\n    let x := 10;\n    let c := wrap(&'x, 5);\n    x = 3;\n    let s: &'i32 = c.Slot;\n    s = 1;\n    io::Println(x);\n}\n"},
 		cse{id: "probe:reference-captured-by-closure", class: "reject", why: "the closure holds m (a mutable reference to a) and is called after a = 5", src: "import \"std/io\";\n\nfn main() {\n    let a := 10;\n    let m: &'i32 = &'a;\n    let f := fn() -> i32 {\n        m = 7;\n        return 1;\n    };\n    a = 5;\n    let k := f();\n    io::Println(a);\n}\n"},
 	)
 	// write-through with implicitly widened values: accepted and compared with the interpreter
